@@ -35,7 +35,8 @@ RULE = ("all registered (message, block, variable) serializers; int-typed: every
         "boundaries + random 32/64-bit raws x {object, plain-data} x every context value of switching fields; byte-typed: "
         "values generated on the serializer's own template -> payload -> decode/encode laws, plus byte fuzz/mutations for "
         "the fixed-point law; shards are split over 3 process time zones. distinct_nontrivial = distinct (serializer key, "
-        "context, raw/payload) cases that decoded to something other than UNSERIALIZABLE")
+        "context, raw/payload) cases that decoded to something other than UNSERIALIZABLE"
+        ". Round-5 additions: the literal law is applied to both printed forms - repr() and the library's own printer (HippoPrettyPrinter, the one the textual message form is made with); double fields also get single-precision values widened to double")
 ASSUMPTIONS = [
     "registrations whose variable no longer exists in the message template are listed and skipped",
     "date adapters may reject raws outside year 1..9999 (counted; at least 200 raws per date field must have been accepted)",
@@ -44,7 +45,7 @@ ASSUMPTIONS = [
     "for accepted foreign payloads one decode-encode pass must reach a fixed point that decodes to the same value",
 ]
 MUST_REACH = {"serializer_keys_covered": 180, "int_raw_checks": 100000, "byte_payload_checks": 1000,
-              "fuzz_accepted": 50, "literal_checks": 10000, "literal_checks_through_library_printer": 5000, "block_api_checks": 500, "block_member_assignments": 50, "block_pretty_assignments": 100, "block_values_scribbled": 40, "tz_covered": 3,
+              "fuzz_accepted": 50, "literal_checks": 10000, "literal_checks_through_library_printer": 5000, "refused_encodes_before_good_ones": 60, "block_api_checks": 500, "block_member_assignments": 50, "block_pretty_assignments": 100, "block_values_scribbled": 40, "tz_covered": 3,
               "negative_raws_on_signed_flag_fields": 10, "context_values": 20}
 
 
@@ -333,10 +334,50 @@ def _classify_date(raw, back, name):
     return ":other"
 
 
+def _poison_last_int(v):
+    """Replace the last plain integer leaf (traversal order) by one that fits no wire type; returns True if one was found."""
+    found = [None]
+
+    def walk(node):
+        items = node.items() if isinstance(node, dict) else enumerate(node) if isinstance(node, list) else ()
+        for k, x in items:
+            if isinstance(x, int) and not isinstance(x, bool):
+                found[0] = (node, k)
+            elif isinstance(x, (dict, list)):
+                walk(x)
+    walk(v)
+    if found[0] is None:
+        return False
+    found[0][0][found[0][1]] = 2 ** 70
+    return True
+
+
+def provoke_failed_encode(ctx, ser, block, payload):
+    """Serializers are long-lived objects shared by everything that touches a field: a refused value (the caller asked for
+    something that does not fit - here an integer too large for any wire type, late in the structure, so that part of the
+    encoding had already been produced) must leave nothing behind that shows up in the next encode."""
+    import copy
+    try:
+        d = ser.deserialize(block, payload, pod=True)
+        bad = copy.deepcopy(d)
+        if not isinstance(bad, (dict, list)) or not _poison_last_int(bad):
+            return
+    except Exception:
+        return
+    try:
+        ser.serialize(block, bad)
+    except Exception:
+        ctx.count("refused_encodes_before_good_ones")
+    else:
+        ctx.count("poisoned_values_accepted")
+
+
 def payload_laws(ctx, key, label, ser, block, payload, origin, own):
     """own=True: payload produced by the serializer itself -> must survive byte-for-byte.
     own=False: foreign payload; if accepted, one pass must reach a fixed point decoding to the same value."""
     name = ser_name(ser)
+    if own and ctx.counters.get("byte_payload_checks", 0) % 2 == 0:
+        provoke_failed_encode(ctx, ser, block, payload)
     for pod in (False, True):
         ctx.ev()
         wit = {"key": list(key), "context": label, "payload": payload[:400], "payload_len": len(payload), "pod": pod,
